@@ -1,13 +1,51 @@
 /- dispatch table of the driver: one line per property -/
+import ALV.Driver.C01
+import ALV.Driver.C02
+import ALV.Driver.C03
+import ALV.Driver.C04
+import ALV.Driver.C05
+import ALV.Driver.C06
+import ALV.Driver.C07
 import ALV.Driver.C08
+import ALV.Driver.C09
+import ALV.Driver.C10
+import ALV.Driver.C11
+import ALV.Driver.C12
+import ALV.Driver.C13
+import ALV.Driver.C14
+import ALV.Driver.C15
+import ALV.Driver.C16
+import ALV.Driver.C17
+import ALV.Driver.C18
+import ALV.Driver.C19
+import ALV.Driver.C20
 namespace ALV.Driver
-open Lean
+open ALV
 
 /-- A handler returns the payload; model-level exceptions (the Python
-    exceptions the model predicts) are payloads of the form {"err": kind}. -/
+    exceptions the model predicts) are ordinary payloads, e.g. {"err": kind}. -/
 def dispatch (id entry : String) (j : Json) : Except String Json :=
   match id with
+  | "C01" => (ALV.Driver.C01.handle entry j).map ALV.J.ok
+  | "C02" => (ALV.Driver.C02.handle entry j).map ALV.J.ok
+  | "C03" => (ALV.Driver.C03.handle entry j).map ALV.J.ok
+  | "C04" => (ALV.Driver.C04.handle entry j).map ALV.J.ok
+  | "C05" => (ALV.Driver.C05.handle entry j).map ALV.J.ok
+  | "C06" => (ALV.Driver.C06.handle entry j).map ALV.J.ok
+  | "C07" => (ALV.Driver.C07.handle entry j).map ALV.J.ok
   | "C08" => (ALV.Driver.C08.handle entry j).map ALV.J.ok
+  | "C09" => (ALV.Driver.C09.handle entry j).map ALV.J.ok
+  | "C10" => (ALV.Driver.C10.handle entry j).map ALV.J.ok
+  | "C11" => (ALV.Driver.C11.handle entry j).map ALV.J.ok
+  | "C12" => (ALV.Driver.C12.handle entry j).map ALV.J.ok
+  | "C13" => (ALV.Driver.C13.handle entry j).map ALV.J.ok
+  | "C14" => (ALV.Driver.C14.handle entry j).map ALV.J.ok
+  | "C15" => (ALV.Driver.C15.handle entry j).map ALV.J.ok
+  | "C16" => (ALV.Driver.C16.handle entry j).map ALV.J.ok
+  | "C17" => (ALV.Driver.C17.handle entry j).map ALV.J.ok
+  | "C18" => (ALV.Driver.C18.handle entry j).map ALV.J.ok
+  | "C19" => (ALV.Driver.C19.handle entry j).map ALV.J.ok
+  | "C20" => (ALV.Driver.C20.handle entry j).map ALV.J.ok
   | _ => throw s!"unknown property {id}"
 
 end ALV.Driver
